@@ -109,22 +109,36 @@ def clientHandleUpdated (d : DSlot) (u : Nat) : DSlot :=
   let c := (Cache.step true (d.caches .read) (.announce (some u))).1
   d.setCache .read (Cache.step true c (.handle (c.inbox.length - 1))).1
 
+/-- The fan-out of one notification to the sessions of `to`: the client of each handles it (`handle`);
+`mk` renders what that client observed.  A session that has no slot any more shows up as `x<sid>`. -/
+def deliverOne (handle : DSlot → DSlot) (mk : Who → DSlot → Send → Delivery) (acc : State × List Delivery)
+    (x : Send) : State × List Delivery :=
+  match slotOfSid acc.1 x.sid with
+  | none => (acc.1, acc.2 ++ [mk (.closed x.sid) {} x])
+  | some i => (acc.1.setSlot i (handle (acc.1.slots i)), acc.2 ++ [mk (.slot i) (acc.1.slots i) x])
+
+def deliverAll (handle : DSlot → DSlot) (mk : Who → DSlot → Send → Delivery) (y : State) (to : List Send) :
+    State × List Delivery :=
+  to.foldl (deliverOne handle mk) (y, [])
+
+def mkChanged (k : Kind) (w : Who) (d : DSlot) (x : Send) : Delivery :=
+  ⟨w, .changed k, stampOf x.stamp,
+   match w with
+   | .slot _ => if d.mask.contains k then Hk.kind k else Hk.none
+   | .closed _ => .other⟩
+
+def mkUpdated (v : Nat) (w : Who) (_d : DSlot) (x : Send) : Delivery :=
+  ⟨w, .updated, stampOf x.stamp,
+   match w with
+   | .slot _ => .uri v
+   | .closed _ => .other⟩
+
 def deliverChanged (y : State) (k : Kind) (to : List Send) : State × List Delivery :=
-  to.foldl (fun (acc : State × List Delivery) x =>
-    match slotOfSid acc.1 x.sid with
-    | none => (acc.1, acc.2 ++ [⟨.closed x.sid, .changed k, stampOf x.stamp, .other⟩])
-    | some i =>
-      let d := acc.1.slots i
-      let hk := if d.mask.contains k then Hk.kind k else Hk.none
-      (acc.1.setSlot i (clientHandleChanged d k), acc.2 ++ [⟨.slot i, .changed k, stampOf x.stamp, hk⟩])) (y, [])
+  deliverAll (clientHandleChanged · k) (mkChanged k) y to
 
 /-- The subscribers of `u` (`to`) get a notification that names `v`; each client invalidates `v`. -/
 def deliverUpdated (y : State) (v : Nat) (to : List Send) : State × List Delivery :=
-  to.foldl (fun (acc : State × List Delivery) x =>
-    match slotOfSid acc.1 x.sid with
-    | none => (acc.1, acc.2 ++ [⟨.closed x.sid, .updated, stampOf x.stamp, .other⟩])
-    | some i =>
-      (acc.1.setSlot i (clientHandleUpdated (acc.1.slots i) v), acc.2 ++ [⟨.slot i, .updated, stampOf x.stamp, .uri v⟩])) (y, [])
+  deliverAll (clientHandleUpdated · v) (mkUpdated v) y to
 
 def fireOrphansDue (k : Kind) : Nat → Server → List Nat → Server × List Nat
   | 0, s, acc => (s, acc)
